@@ -3,7 +3,9 @@ C17 — No data races under documented concurrent use. Property theorems only (v
 readers-writer locks; happens-before = program order + release→acquire edges).
 -/
 import OAP.Model.Client.Lockset
+import OAP.Model.Client.LocksetConn
 import OAP.Gen.Facts
+import OAP.Gen.Conn
 namespace OAP.C17
 open OAP OAP.Lockset
 
@@ -72,5 +74,158 @@ theorem failall_exclusive :
     Gen.seq_client_reconnect = ["c.stateMu.Lock", "c.stateMu.Unlock", "c.stateMu.Unlock", "c.RLock", "c.RUnlock", "old.Close", "c.recvsMu.Lock", "close:w.ch", "c.recvsMu.Unlock", "c.dial", "c.stateMu.Lock", "c.stateMu.Unlock", "c.isAuthExpired", "c.auth", "c.reconnectDial"] ∧
     Gen.seq_client_handleResponse = ["c.recvsMu.RLock", "defer:c.recvsMu.RUnlock", "select", "send:w.ch", "default"] := by
   decide
+
+
+/-! ### the connection types: tcpConn, wsConn, closeCallback
+
+The tables `Gen.connFields / connCaptured / connAccess / connCalls / connEdges` are regenerated from
+go/client/{tcp_conn,ws_conn,client_conn}.go on every run (extract/conn.go). Hand-written here: which goroutine ROLE executes each
+function, and by what each field is protected. The theorems decide that the regenerated tables obey them; a new field, method,
+closure, operation or call edge breaks a proof until it is classified. What a role abstracts: see `LocksetConn`. -/
+
+open OAP.LocksetConn
+
+/-- function ↦ goroutine role.
+* constructor: the dial functions up to the statement that starts the goroutines (what follows is `<dial>.started`), `communicating`
+  (called from them only), `newCloseCallback`;
+* reader: `reading` and what only it calls — on ws also gorilla's control handlers, which `NextReader` runs (`connHandlers`);
+* writer: `writing`; dispatcher: the goroutine started by `OnPacket` under `onPacketOnce`;
+* any: the ClientConn API, the helpers shared with the goroutines (`closed`, `Close` and its once-body, `write`), `DispatchClose`. -/
+def connRoles : List (String × Role) := [
+  ("dialTCPConn", .constructor), ("dialWSConn", .constructor), ("newCloseCallback", .constructor),
+  ("tcpConn.communicating", .constructor), ("wsConn.communicating", .constructor),
+  ("dialTCPConn.started", .any), ("dialWSConn.started", .any),
+  ("tcpConn.reading", .reader), ("tcpConn.readPacket", .reader), ("tcpConn.addPacket", .reader),
+  ("wsConn.reading", .reader), ("wsConn.readPacket", .reader), ("wsConn.addPacket", .reader),
+  ("wsConn.onClose", .reader), ("wsConn.onPing", .reader), ("wsConn.onPong", .reader),
+  ("tcpConn.writing", .writer), ("wsConn.writing", .writer),
+  ("tcpConn.OnPacket.func1.func1", .dispatcher), ("wsConn.OnPacket.func1.func1", .dispatcher),
+  ("tcpConn.NeedHandleControl", .any), ("tcpConn.Context", .any), ("tcpConn.Write", .any), ("tcpConn.write", .any),
+  ("tcpConn.OnPacket", .any), ("tcpConn.OnPacket.func1", .any), ("tcpConn.Close", .any), ("tcpConn.Close.func1", .any),
+  ("tcpConn.closed", .any),
+  ("wsConn.NeedHandleControl", .any), ("wsConn.Context", .any), ("wsConn.Write", .any), ("wsConn.write", .any),
+  ("wsConn.writePing", .any), ("wsConn.writeClose", .any),
+  ("wsConn.OnPacket", .any), ("wsConn.OnPacket.func1", .any), ("wsConn.Close", .any), ("wsConn.Close.func1", .any),
+  ("wsConn.closed", .any),
+  ("closeCallback.OnClose", .any), ("closeCallback.DispatchClose", .any)]
+
+/-- method values given to code outside the package, with the reason for their role -/
+def connHandlers : List (String × String) := [
+  ("wsConn.onClose", "gorilla/websocket: the close handler is called from NextReader / the message reader — the goroutine of wsConn.reading (NextReader: reader only, connCallRules)"),
+  ("wsConn.onPing", "gorilla/websocket: the ping handler is called from NextReader / the message reader — the goroutine of wsConn.reading"),
+  ("wsConn.onPong", "gorilla/websocket: the pong handler is called from NextReader / the message reader — the goroutine of wsConn.reading")]
+
+/-- (struct, field) ↦ discipline. `needAuth`, `writeBuf` (tcp) and `dopts` are never read on this tree; they get the strictest class. -/
+def connDiscs : List ((String × String) × Disc) := [
+  (("closeCallback", "callbacks"), .guardedBy "mu"), (("closeCallback", "mu"), .syncObject),
+  (("tcpConn", "buf"), .confined .reader), (("tcpConn", "readBuf"), .confined .reader),
+  (("tcpConn", "closeCallback"), .constructorOnly), (("tcpConn", "qctx"), .constructorOnly), (("tcpConn", "dopts"), .constructorOnly),
+  (("tcpConn", "needAuth"), .constructorOnly), (("tcpConn", "writeBuf"), .constructorOnly),
+  (("tcpConn", "closeCh"), .syncObject), (("tcpConn", "writeCh"), .syncObject), (("tcpConn", "packetCh"), .syncObject),
+  (("tcpConn", "closeOnce"), .syncObject), (("tcpConn", "onPacketOnce"), .syncObject),
+  (("tcpConn", "conn"), .sharedObject), (("tcpConn", "logger"), .sharedObject), (("tcpConn", "p"), .sharedObject),
+  (("tcpConn", "OnPacket$conn"), .onceBeforeStart), (("tcpConn", "OnPacket$fn"), .onceBeforeStart),
+  (("wsConn", "closeCallback"), .constructorOnly), (("wsConn", "qctx"), .constructorOnly), (("wsConn", "dopts"), .constructorOnly),
+  (("wsConn", "closeCh"), .syncObject), (("wsConn", "writeCh"), .syncObject), (("wsConn", "packetCh"), .syncObject),
+  (("wsConn", "closeOnce"), .syncObject), (("wsConn", "onPacketOnce"), .syncObject),
+  (("wsConn", "conn"), .sharedObject), (("wsConn", "logger"), .sharedObject), (("wsConn", "p"), .sharedObject),
+  (("wsConn", "OnPacket$conn"), .onceBeforeStart), (("wsConn", "OnPacket$fn"), .onceBeforeStart)]
+
+/-- accesses exempt from the discipline, with reasons — none is needed on the current tree -/
+def connJustified : List (Acc × String) := []
+
+def connTables : Tables := ⟨connRoles, connDiscs, connJustified⟩
+
+/-- why the object in a `sharedObject` field may be used from several goroutines -/
+def connSharedWhy : List ((String × String) × String) := [
+  (("tcpConn", "conn"), "net.Conn: 'Multiple goroutines may invoke methods on a Conn simultaneously'; Read is still kept to the reader, Write to the writer"),
+  (("wsConn", "conn"), "gorilla *websocket.Conn: one concurrent reader (NextReader: reader only) and one concurrent writer (WriteMessage: writer only); Close and WriteControl 'can be called concurrently with all other methods'; handlers are set before the goroutines start"),
+  (("tcpConn", "logger"), "protocol.Logger: user-supplied, required to be safe for concurrent use (DefaultLogger wraps the standard log.Logger)"),
+  (("wsConn", "logger"), "protocol.Logger: as for tcpConn"),
+  (("tcpConn", "p"), "protocol.Protocol: protocolV1/protocolV2 are empty structs; Pack touches only its arguments; the streaming Unpack keeps per-connection state in the Context (beginUnpack, the header slot) and is kept to the reader"),
+  (("wsConn", "p"), "protocol.Protocol: as for tcpConn; UnpackBytes is kept to the reader")]
+
+/-- (struct, field, operation) ↦ who may perform it. No rule for `close` of `writeCh` / `packetCh`: closing a data channel is rejected. -/
+def connCallRules : CallRules := [
+  (("closeCallback", "mu", "Lock"), .anyRole), (("closeCallback", "mu", "Unlock"), .anyRole),
+  (("tcpConn", "closeCh", "recv"), .anyRole), (("tcpConn", "closeCh", "close"), .onceBody "closeOnce"),
+  (("tcpConn", "closeOnce", "Do"), .anyRole), (("tcpConn", "onPacketOnce", "Do"), .anyRole),
+  (("tcpConn", "writeCh", "send"), .anyRole), (("tcpConn", "writeCh", "len"), .anyRole), (("tcpConn", "writeCh", "recv"), .anyRole),
+  (("tcpConn", "packetCh", "send"), .anyRole), (("tcpConn", "packetCh", "recv"), .anyRole),
+  (("tcpConn", "conn", "Read"), .only .reader), (("tcpConn", "conn", "Write"), .only .writer), (("tcpConn", "conn", "Close"), .anyRole),
+  (("tcpConn", "readBuf", "*"), .only .reader),
+  (("tcpConn", "logger", "*"), .anyRole),
+  (("tcpConn", "p", "Pack"), .anyRole), (("tcpConn", "p", "Unpack"), .only .reader),
+  (("wsConn", "closeCh", "recv"), .anyRole), (("wsConn", "closeCh", "close"), .onceBody "closeOnce"),
+  (("wsConn", "closeOnce", "Do"), .anyRole), (("wsConn", "onPacketOnce", "Do"), .anyRole),
+  (("wsConn", "writeCh", "send"), .anyRole), (("wsConn", "writeCh", "len"), .anyRole), (("wsConn", "writeCh", "recv"), .anyRole),
+  (("wsConn", "packetCh", "send"), .anyRole), (("wsConn", "packetCh", "recv"), .anyRole),
+  (("wsConn", "conn", "SetCloseHandler"), .constructorPhase), (("wsConn", "conn", "SetPingHandler"), .constructorPhase),
+  (("wsConn", "conn", "SetPongHandler"), .constructorPhase),
+  (("wsConn", "conn", "NextReader"), .only .reader), (("wsConn", "conn", "WriteMessage"), .only .writer),
+  (("wsConn", "conn", "WriteControl"), .anyRole), (("wsConn", "conn", "Close"), .anyRole),
+  (("wsConn", "logger", "*"), .anyRole),
+  (("wsConn", "p", "Pack"), .anyRole), (("wsConn", "p", "UnpackBytes"), .only .reader)]
+
+/-- every recorded access obeys its field's discipline (or is justified by hand) -/
+def connDisciplined (tbl : List (String × String × String × String × List String)) : Bool :=
+  LocksetConn.disciplined connTables (tbl.map Acc.ofTuple)
+
+/-- T2: every syntactic access to a field of tcpConn / wsConn / closeCallback — in their methods, the closures inside them, the dial
+functions and newCloseCallback — obeys the discipline of its field -/
+theorem conn_table_disciplined : connDisciplined Gen.connAccess = true := by
+  decide +kernel
+
+/-- T2: every operation on an object held in a field (method call, channel operation) is one its rule allows from that role: only
+the reader reads the socket / calls NextReader / runs the streaming decoder, only the writer calls Write / WriteMessage, the close
+signal is closed only inside `closeOnce`, the data channels are never closed, handlers are installed before the goroutines start -/
+theorem conn_calls_disciplined : callsDisciplined connTables connCallRules Gen.connEdges Gen.connCalls = true := by
+  decide +kernel
+
+/-- T2: the hand-written roles agree with the call graph of the source: a function called from another role is `any`; a goroutine is
+started only by a constructor-role function or inside a `sync.Once` body; method values given away are the listed handlers -/
+theorem conn_roles_consistent : edgesConsistent connTables connHandlers Gen.connEdges = true := by
+  decide +kernel
+
+/-- T2: the goroutines of a connection, each with ONE start site: reader and writer in `communicating` (constructor), the dispatcher
+inside the `onPacketOnce` body — so `reader`, `writer`, `dispatcher` are one goroutine each per connection object -/
+theorem conn_goroutines :
+    Gen.connEdges.filter (fun e => e.2.1 == "go") =
+      [("tcpConn.OnPacket.func1", "go", "tcpConn.OnPacket.func1.func1"),
+       ("tcpConn.communicating", "go", "tcpConn.reading"), ("tcpConn.communicating", "go", "tcpConn.writing"),
+       ("wsConn.OnPacket.func1", "go", "wsConn.OnPacket.func1.func1"),
+       ("wsConn.communicating", "go", "wsConn.reading"), ("wsConn.communicating", "go", "wsConn.writing")] ∧
+    (Gen.connEdges.filter (fun e => e.2.2 == "tcpConn.communicating" || e.2.2 == "wsConn.communicating")).map (·.1) =
+      ["dialTCPConn", "dialWSConn"] := by
+  decide +kernel
+
+/-- COMPLETENESS of the classification: every field of the three structs and every captured variable has a discipline, every
+`sharedObject` has its reason, and every function that occurs in the access table, the call table or the call graph has a role -/
+theorem conn_classification_complete :
+    (Gen.connFields ++ Gen.connCaptured).all (fun sf => sf.2.all (fun f => (discOf connTables sf.1 f).isSome)) = true ∧
+    connDiscs.all (fun d => d.2 != .sharedObject || (connSharedWhy.lookup d.1).isSome) = true ∧
+    Gen.connAccess.all (fun r => (roleOf connTables r.2.2.1).isSome) = true ∧
+    Gen.connCalls.all (fun r => (roleOf connTables r.2.2.1).isSome) = true ∧
+    Gen.connEdges.all (fun e => (roleOf connTables e.1).isSome && (roleOf connTables e.2.2).isSome) = true := by
+  decide +kernel
+
+/-- SOUNDNESS for the regenerated table: two recorded accesses to the same field, not both plain reads, both after construction
+and possibly on different goroutines (different roles, or both in the many-goroutine role `any`), are ordered by a common guard
+(`lockset_sound` then gives happens-before), or are both operations that do not write the field on a channel / Once / mutex /
+concurrency-safe object, or are exempted by hand (`connJustified`: empty). -/
+theorem conn_lockset_sound (a b : Acc) (ha : a ∈ Gen.connAccess.map Acc.ofTuple) (hb : b ∈ Gen.connAccess.map Acc.ofTuple)
+    (hc : Conflicting a b) (hcc : Concurrent connTables a b) : Ordered connTables a b :=
+  disciplined_sound connTables _ conn_table_disciplined a b ha hb hc hcc
+
+/-- with an empty justified list the third alternative does not occur -/
+theorem conn_no_exemptions (a : Acc) : isJustified connTables a = false := by
+  simp [isJustified, connTables, connJustified]
+
+/-- non-vacuity: the two accesses to `callbacks` — appended by `OnClose`, copied by `DispatchClose`, both callable from any
+goroutine — conflict, can be concurrent, and are ordered by `mu` -/
+example : ∃ m, discOf connTables "closeCallback" "callbacks" = some (.guardedBy m) ∧
+    holdsW ⟨"closeCallback", "callbacks", "closeCallback.OnClose", "write", ["mu:W"]⟩ m = true ∧
+    holdsR ⟨"closeCallback", "callbacks", "closeCallback.DispatchClose", "read", ["mu:W"]⟩ m = true :=
+  ⟨"mu", by decide +kernel, by decide +kernel, by decide +kernel⟩
 
 end OAP.C17
